@@ -82,6 +82,11 @@ abbrev Log := List LogEntry
 /-- which symbols are defined with a generator, and their parameter symbols (`generator_dependencies`) -/
 structure Spec where
   gens : List (String × List String)
+  /-- iteration order of the *set* `generator_dependencies(sym)` (used by `_topological_sort`); when a symbol has
+      no entry the parameter list is used -/
+  deps : List (String × List String) := []
+  /-- the symbols that have a rule (`symbol in grammar.rules`) -/
+  rules : List String := []
   deriving Repr
 
 def Spec.params (S : Spec) (s : String) : Option (List String) :=
@@ -113,6 +118,18 @@ def argsOf : List String → List GTree → Option (List Val)
 
 inductive Err where
   | noGenerator | missingParam | parseError
+  /-- the generator expression itself raised -/
+  | genRaised
+  /-- `derive_sources`: a parameter symbol has no generator of its own ("Missing converter") -/
+  | missingConverter
+  /-- `derive_sources`: a parameter symbol has no rule -/
+  | undefinedSymbol
+  /-- `_topological_sort` / `dependent_gens.remove`: `KeyError` / `ValueError` -/
+  | topoError
+  /-- `derive_sources` on a terminal -/
+  | notNonterminal
+  /-- the model ran out of fuel (the code would not have returned within that many calls) -/
+  | fuel
   deriving DecidableEq, Repr
 
 abbrev Parser := String → Val → Option (List GTree)
@@ -239,11 +256,17 @@ def putAt : GTree → List Nat → GTree → GTree
     | some k => .node s r (kids.set i (putAt k p u)) srcs
     | none => .node s r kids srcs
 
+/-- `self.symbol == replacement.symbol`: nonterminals by name, terminals by their value -/
+def sameSym : GTree → GTree → Bool
+  | .leaf v _, .leaf w _ => v == w
+  | .node s _ _ _, .node s' _ _ _ => s == s'
+  | _, _ => false
+
 /-- `replace_multiple` for one pair: the node at the path is swapped iff it is writable and has the
     replacement's symbol -/
 def replaceAt (t : GTree) (p : List Nat) (u : GTree) : GTree :=
   match subAt t p with
-  | some x => if x.ro = false ∧ x.sym? = u.sym? then putAt t p u else t
+  | some x => if x.ro = false ∧ sameSym x u = true then putAt t p u else t
   | none => t
 
 /-- symbols from the root down to (excluding) the node at the path -/
